@@ -413,12 +413,29 @@ class Visitor(ast.NodeVisitor):
             self.recomputed_values[node] = joined_str
             return joined_str
 
+    def _visit_elements(self, nodes: List[ast.expr]) -> List[Any]:
+        """Visit the elements of a display or the positional arguments of a call and unpack the starred ones."""
+        result = []  # type: List[Any]
+        for node in nodes:
+            if isinstance(node, ast.Starred):
+                starred = self.visit(node=node.value)
+
+                # Please see "NOTE ABOUT PLACEHOLDERS AND RE-COMPUTATION"
+                if starred is PLACEHOLDER:
+                    result.append(PLACEHOLDER)
+                else:
+                    result.extend(starred)
+            else:
+                result.append(self.visit(node=node))
+
+        return result
+
     def visit_List(self, node: ast.List) -> Union[List[Any], Placeholder]:
         """Visit the elements and assemble the results into a list."""
         if isinstance(node.ctx, ast.Store):
             raise NotImplementedError("Can not compute the value of a Store on a list")
 
-        recomputed_elts = [self.visit(node=elt) for elt in node.elts]
+        recomputed_elts = self._visit_elements(nodes=node.elts)
 
         # Please see "NOTE ABOUT PLACEHOLDERS AND RE-COMPUTATION"
         if any(recomputed_elt is PLACEHOLDER for recomputed_elt in recomputed_elts):
@@ -432,7 +449,7 @@ class Visitor(ast.NodeVisitor):
         if isinstance(node.ctx, ast.Store):
             raise NotImplementedError("Can not compute the value of a Store on a tuple")
 
-        recomputed_elts = tuple(self.visit(node=elt) for elt in node.elts)
+        recomputed_elts = tuple(self._visit_elements(nodes=node.elts))
         # Please see "NOTE ABOUT PLACEHOLDERS AND RE-COMPUTATION"
         if any(recomputed_elt is PLACEHOLDER for recomputed_elt in recomputed_elts):
             return PLACEHOLDER
@@ -442,7 +459,7 @@ class Visitor(ast.NodeVisitor):
 
     def visit_Set(self, node: ast.Set) -> Union[Set[Any], Placeholder]:
         """Visit the elements and assemble the results into a set."""
-        recomputed_elts = set(self.visit(node=elt) for elt in node.elts)
+        recomputed_elts = set(self._visit_elements(nodes=node.elts))
         # Please see "NOTE ABOUT PLACEHOLDERS AND RE-COMPUTATION"
         if any(recomputed_elt is PLACEHOLDER for recomputed_elt in recomputed_elts):
             return PLACEHOLDER
@@ -688,12 +705,7 @@ class Visitor(ast.NodeVisitor):
             if result is PLACEHOLDER:
                 return PLACEHOLDER
         else:
-            args = []  # type: List[Any]
-            for arg_node in node.args:
-                if isinstance(arg_node, ast.Starred):
-                    args.extend(self.visit(node=arg_node))
-                else:
-                    args.append(self.visit(node=arg_node))
+            args = self._visit_elements(nodes=node.args)
 
             kwargs = dict()  # type: Dict[Union[str, Placeholder], Any]
             for keyword in node.keywords:
